@@ -141,7 +141,56 @@ def build(scn, circuit):
         groups = {k: [ref_obj(r, byname, blocks) for r in g] for k, g in cb.get('groups', {}).items()}
         blk.connect(*pos, **named, **groups)
         blocks[name] = blk
+    # record what every FuncBlock (incl. And / Or / Xor) passes to its function
+    for blk in blocks.values():
+        if isinstance(blk, edzed.FuncBlock):
+            blk._func = _recording(blk.name, blk._func)
     return blocks
+
+
+LAST_CALL = {}
+
+
+def _recording(name, f):
+    def wrapper(*a, **kw):
+        r = f(*a, **kw)
+        LAST_CALL[name] = (a, dict(kw), r)
+        return r
+    return wrapper
+
+
+def call_str(scn, blk):
+    """canonical rendering of the last call of a FuncBlock's function, read against the DOCUMENTED shape:
+    unnamed inputs as separate values (unpack) or one tuple, named singles as values, named groups as tuples;
+    anything else is rendered `?…` and cannot match the model"""
+    cb = scn['cblocks'][int(blk.name[1:])]
+    unpack = cb['unpack'] if cb['fn'] == 'f' else False
+    a, kw, r = LAST_CALL[blk.name]
+
+    def senc(v):
+        try:
+            return enc(v)
+        except Exception:               # not a value of the model's domain (e.g. a tuple where a value belongs)
+            return '?' + repr(v).replace(' ', '')
+
+    def many(v):
+        return 'm:' + '|'.join(senc(x) for x in v) if isinstance(v, tuple) else '?' + repr(v).replace(' ', '')
+    if unpack:
+        pos = ['o:' + senc(v) for v in a]
+    else:
+        pos = [many(v) for v in a] if len(a) == 1 else ['?' + repr(a).replace(' ', '')]
+    kws = []
+    for k in sorted(kw):
+        if k in cb.get('named', {}):
+            kws.append(f'{k}=o:' + senc(kw[k]))
+        elif k in cb.get('groups', {}):
+            kws.append(f'{k}=' + many(kw[k]))
+        else:
+            kws.append(f'{k}=?')
+    out = 'args pos=' + ','.join(pos) + ' kw=' + ','.join(kws)
+    if cb['fn'] == 'f':
+        out += ' val=' + senc(r)
+    return out
 
 
 def fn_token(cb):
@@ -206,6 +255,7 @@ def run(scn):
     log = []
     _EVAL_LOG = log
     CALLS['n'] = 0
+    LAST_CALL.clear()
     edzed.reset_circuit()
     circuit = edzed.get_circuit()
     try:
@@ -254,6 +304,12 @@ def run(scn):
             lines.append('sim idle')
             trace.append('idle ' + outs_str(cbl, sblocks))
             idle_points.append({b.name: b.output for b in list(circuit.getblocks())})
+            # the arguments every FuncBlock passed to its function at its last evaluation (at a pause the
+            # inputs are what they were then)
+            for j, b in enumerate(cbl):
+                if isinstance(b, edzed.FuncBlock) and b.name in LAST_CALL:
+                    lines.append(f'sim args {j}')
+                    trace.append(call_str(scn, b))
             return True
 
         if not circuit.is_finalized():
